@@ -59,6 +59,9 @@ enum Attack {
     HonestPlain { author: u8, topic: u8 },
     /// An already stored operation of this log again (duplicate).
     Duplicate { author: u8, topic: u8, which: u16 },
+    /// Reuses the id (caller-supplied `hash` field), key and signature of a *stored* operation of
+    /// the victim but carries another header (prune flag, other seq): must fail validation.
+    ForgedStoredId { victim: u8, topic: u8, which: u16, seq: SeqSel, prune: bool },
 }
 
 #[derive(Clone, Debug, Serialize, Deserialize)]
@@ -276,6 +279,30 @@ fn build_attack(world: &World, attack: &Attack, n_authors: usize, n_topics: usiz
                 topic: t,
                 must: Some(true),
                 hostile_prune_on_nonempty: false,
+            }
+        }
+        Attack::ForgedStoredId { victim, topic, which, seq, prune } => {
+            let (v, t) = (a_of(victim), t_of(topic));
+            let chain = world.chains.get(&(v, t))?;
+            if chain.is_empty() {
+                return None;
+            }
+            let stored = &chain[idx(*which, chain.len())];
+            let s = world.select_seq(seq, v, t);
+            let mut op = stored.clone();
+            op.header.seq_num = s;
+            op.header.backlink = if s > 0 { Some(Hash::digest(b"forged backlink")) } else { None };
+            op.header.extensions = Extensions::from_topic(world.topics[t]).set_prune_flag(*prune);
+            if op.header == stored.header {
+                return None;
+            }
+            // `op.hash` and `op.header.signature` stay those of the stored operation.
+            Built {
+                op,
+                claimed: v,
+                topic: t,
+                must: Some(false),
+                hostile_prune_on_nonempty: *prune,
             }
         }
         Attack::Duplicate { author, topic, which } => {
@@ -547,7 +574,7 @@ fn check_node(case: &NodeCase) -> CaseResult {
                     let mut built = Vec::new();
                     for a in attacks {
                         // Node level uses only classes whose verdict is known by construction.
-                        let keep = matches!(a, Attack::Forged { .. } | Attack::HonestPlain { .. } | Attack::HonestPrune { .. });
+                        let keep = matches!(a, Attack::Forged { .. } | Attack::ForgedStoredId { .. } | Attack::HonestPlain { .. } | Attack::HonestPrune { .. });
                         if !keep {
                             continue;
                         }
@@ -664,6 +691,8 @@ fn attack() -> impl Strategy<Value = Attack> {
         2 => (0u8..4, 0u8..2, 0u8..3, any::<bool>()).prop_map(|(author, topic, gap, body)| Attack::HonestPrune { author, topic, gap, body }),
         3 => (0u8..4, 0u8..2).prop_map(|(author, topic)| Attack::HonestPlain { author, topic }),
         1 => (0u8..3, 0u8..2, any::<u16>()).prop_map(|(author, topic, which)| Attack::Duplicate { author, topic, which }),
+        2 => (0u8..3, 0u8..2, any::<u16>(), seq_sel(), prop::bool::weighted(0.85))
+            .prop_map(|(victim, topic, which, seq, prune)| Attack::ForgedStoredId { victim, topic, which, seq, prune }),
     ]
 }
 
